@@ -19,7 +19,7 @@ class Contract:
                  props=(), inline=False, trusted=False, bind=None, lang=None, cases=None,
                  raises=(), pure=True, note='', order_axioms=False, arith_axioms=False,
                  extra_axioms=(), returns=None, ghost=None, replay=None, exc_ok=False, kinds=None,
-                 lemmas=(), theories=(), hints=None):
+                 lemmas=(), theories=(), hints=None, allocates=None):
         self.name = name
         self.params = params or {}
         self.requires = list(requires)
@@ -46,6 +46,7 @@ class Contract:
         self.lemmas = tuple(lemmas)
         self.theories = tuple(theories)
         self.hints = hints or {}
+        self.allocates = allocates or {}
 
 
 def contract(name, **kw):
